@@ -66,7 +66,14 @@ def run(ctx, repo):
     P = Pats(repo)
     EC = P.dfa('PAT_EVENT_CODE')
     utils = repo.module(UTILS)
-    consts = {k: v for k, v in P.env.items() if isinstance(v, (list, tuple)) and k.isupper()}
+    consts = {k: v for k, v in P.env.items() if isinstance(v, (list, tuple, dict, set, frozenset)) and k.strip('_').isupper()}
+    try:
+        for k, v in repo.folded(UTILS)[0].items():
+            if k not in consts and isinstance(v, (list, tuple, dict, set, frozenset)) and k.strip('_').isupper() \
+                    and all(isinstance(x, (str, int, float)) for x in v):
+                consts[k] = v
+    except Exception:
+        pass
     ctx.explanation = (
         'Totality over the whole accepted language L(PAT_EVENT_CODE): the consumers are interpreted over the '
         'regular domain (abstract string = DFA, abstract match object = the pattern restricted by the path), every '
@@ -178,7 +185,8 @@ def run(ctx, repo):
         it = Interp(P, utils.tree, '_field_sort_order', FIELD, consts=consts)
         nf = report_interp(ctx, UTILS, '_field_sort_order', it)
         for v, inp, st in it.ret:
-            is_index = isinstance(st.value, ast.Call) and call_name(st.value) == 'index'
+            # the entry that was found: LIST.index(key), or TABLE[key] (the same lookup through a precomputed table)
+            is_index = (isinstance(st.value, ast.Call) and call_name(st.value) == 'index') or isinstance(st.value, ast.Subscript)
             if not is_index:
                 w = P.wit(inp)
                 if w is not None:
